@@ -183,6 +183,53 @@ def run_children(cases, seeds, repo=None, parallel=CHILD_PARALLEL):
     return out
 
 
+# ---- part D: histories of several fresh cleaners in ONE pristine interpreter ------------------------
+
+def run_history(steps):
+    """Every step on a FRESH Cleaner, one after the other in this process.
+    step = {"cleaner": build_cleaner case, "lines": [...], "allow": {..} | None, "no_obf": [...] | None, "no_redact": bool}.
+    -> [output of clean_content per step]"""
+    outs = []
+    for st in steps:
+        c = build_cleaner(st["cleaner"])
+        allow = None if st.get("allow") is None else dict(st["allow"])
+        outs.append(c.clean_content(list(st["lines"]), no_obfuscate=st.get("no_obf"), no_redact=bool(st.get("no_redact")),
+                                    allowlist=allow))
+    return outs
+
+
+def run_histories(histories, repo=None):
+    """One child interpreter (PYTHONHASHSEED as pinned by the runner, 0 when unset); every history in its own fork of the
+    pristine child (see harness/c10_child.py).  -> [[output per step] per history]"""
+    import tempfile
+    repo = repo or os.environ.get("VERIF_REPO", "/repo")
+    fd, path = tempfile.mkstemp(prefix="verif-%d-c10hist-" % os.getpid(), suffix=".json", dir="/dev/shm")
+    with os.fdopen(fd, "w") as fh:
+        json.dump({"repo": repo, "verif": HERE, "histories": histories}, fh)
+    try:
+        env = dict(os.environ)
+        env.setdefault("PYTHONHASHSEED", "0")
+        env["PYTHONDONTWRITEBYTECODE"] = "1"
+        p = subprocess.Popen([sys.executable, CHILD, path], env=env, stdin=subprocess.DEVNULL,
+                             stdout=subprocess.PIPE, stderr=subprocess.PIPE)
+        try:
+            so, se = p.communicate(timeout=900)
+        except subprocess.TimeoutExpired:
+            p.kill()
+            raise RuntimeError("child interpreter (histories) timed out")
+        if p.returncode != 0:
+            raise RuntimeError("child interpreter (histories) failed: %s" % se.decode("utf-8", "replace")[-1500:])
+        res = json.loads(so.decode("utf-8"))["results"]
+        if len(res) != len(histories):
+            raise RuntimeError("child returned %d results for %d histories" % (len(res), len(histories)))
+        return res
+    finally:
+        try:
+            os.remove(path)
+        except OSError:
+            pass
+
+
 # ---- owning set iteration order INSIDE the obfuscators ----------------------------------------
 
 INSIDE_MODULES = ("hostname", "ip", "keyword", "mac", "password", "pattern", "filters", "utilities")
